@@ -341,7 +341,7 @@ def copy_copy(interp, v):
             return interp.call(interp.bind(v, f), [], {})
         return Instance(v.cls, dict(v.fields))
     if isinstance(v, PyList):
-        return PyList(v.items)
+        return PyList(v._items, v.prefix)
     if isinstance(v, PyDict):
         return PyDict(v.pairs)
     if isinstance(v, PyDeque):
@@ -367,7 +367,8 @@ def copy_deepcopy(interp, v, memo=None):
     if isinstance(v, PyList):
         n = PyList()
         memo[id(v)] = n
-        n.items = [copy_deepcopy(interp, x, memo) for x in v.items]
+        n._items = [copy_deepcopy(interp, x, memo) for x in v._items]
+        n.prefix = v.prefix
         return n
     if isinstance(v, PyDict):
         n = PyDict()
